@@ -74,6 +74,36 @@ example : tokenize ⟨true, ['[', ']'], false, ['"']⟩
     = .tree (toTrees [STree.node [.node [], .leaf ['a'], .node [.leaf ['b', ' ', ']'], .node []]], .leaf ['c']]) :=
   nesting_exact _ (by decide) rfl (by decide) '[' ']' rfl _
 
+/-- shlex whitespace is among the Tokenizer's separators (extracted constants) -/
+theorem ws_subset_seps : ∀ ch ∈ Gen.shlexWhitespace, ch ∈ Gen.tokenizerSeparators := by decide
+
+/-- **… also with bare words**: the same for trees whose leaves are unquoted words (any non-empty
+text free of blanks, NUL, brackets, quote characters and — with pipe syntax — `|`; `WordsOkL`, see
+`wordOk_of_plain`) or quoted text, items separated by one blank, brackets directly adjacent to the
+first and last item of a sub-command: `foo [bar "x y" [baz]] qux` tokenises to exactly
+`[foo, [bar, x y, [baz]], qux]`.  (This is where the lexer's pushback of a bracket that ends a word
+is exercised.) -/
+theorem nesting_exact_words (c : Conf) (hv : c.Valid) (hn : c.nested = true) (hq : '"' ∈ c.quotes)
+    (l r : Char) (hb : c.brackets = [l, r]) (ts : List WTree) (hw : WordsOkL c.lexCfg ts) :
+    tokenize c (renderListW l r ts) = .tree (toTreesW ts) := by
+  have he : effBrackets c = [l, r] := by simp [effBrackets, hn, hb]
+  unfold tokenize
+  obtain ⟨T, hT, -⟩ := mkTokenizer_ok (effBrackets_ok hv tables_ok) (effPipe c) c.quotes
+  obtain ⟨hwd, hlex⟩ := wdTok_of_mk tables_ok hv he hT hq
+  rw [hT]
+  simp only [tokenizeT_renderW hwd ts (hlex ▸ hw)]
+
+/-- non-vacuity: `foo [bar "x y" [baz]] qux` under the default configuration -/
+example : tokenize ⟨true, ['[', ']'], false, ['"']⟩
+      (renderListW '[' ']' [.word ['f', 'o', 'o'], .node [.word ['b', 'a', 'r'], .leaf ['x', ' ', 'y'], .node [.word ['b', 'a', 'z']]], .word ['q', 'u', 'x']])
+    = .tree (toTreesW [.word ['f', 'o', 'o'], .node [.word ['b', 'a', 'r'], .leaf ['x', ' ', 'y'], .node [.word ['b', 'a', 'z']]], .word ['q', 'u', 'x']]) :=
+  nesting_exact_words _ (by decide) rfl (by decide) '[' ']' rfl _
+    (by
+      have h : ∀ w, PlainWord ⟨true, ['[', ']'], false, ['"']⟩ w → WordOk (Conf.lexCfg ⟨true, ['[', ']'], false, ['"']⟩) w :=
+        fun w => wordOk_of_plain ws_subset_seps _ w
+      simp only [WordsOkL, WTree.WordsOk, and_true, true_and]
+      exact ⟨h _ (by decide), ⟨h _ (by decide), h _ (by decide)⟩, h _ (by decide)⟩)
+
 /-- **With nesting disabled brackets are literal text**: when `supybot.commands.nested` is off, or
 the channel's bracket string is empty and pipes are off, the result of tokenising *any* string has
 no sub-list — every item is a plain token. -/
